@@ -95,7 +95,9 @@ def lookupSym (defs : List StoreDef) (st : Nat) (n : String) : Option Atom :=
     | some (.set ty l) => some (.set st n ty l)
     | none => none
 
-/-- `createCompositeEntitySymbol(name, first, rest)` -/
+/-- `createCompositeEntitySymbol(name, first, rest)` (after 0441eb9: the links of a non-set chain
+    are walked one by one, so every chain is fully iterable and the `cursorLastF = last.Eval` case,
+    still present in the code and in `modelElems`, is no longer produced) -/
 def compose (first : Atom) (rest : RSym) : RSym :=
   match rest with
   | .atom .id => .atom first                                  -- "strip ids, since they are redundant"
@@ -104,9 +106,22 @@ def compose (first : Atom) (rest : RSym) : RSym :=
     else .compSet [first, a] [] a.ty
   | .nonSetComp chain ty =>
     if !first.isSet then .nonSetComp (first :: chain) ty
-    -- the rest is not iterable: only `first` is walked, the rest is evaluated by cursorLastF
+    else .compSet (first :: chain) [] ty                       -- chain = first ++ nsc.chain, all iterable
+  | .compSet iter _ ty => .compSet (first :: iter) [] ty       -- getChain() = the iterable chain
+
+/-- `createCompositeEntitySymbol` as it was before 0441eb9 (kept to document the defect): a non-set
+    chain behind a set stayed a non-iterable tail evaluated through `cursorLastF`, and `getChain()`
+    of such a symbol dropped that tail -/
+def composePre0441eb9 (first : Atom) (rest : RSym) : RSym :=
+  match rest with
+  | .atom .id => .atom first
+  | .atom a =>
+    if !first.isSet && !a.isSet then .nonSetComp [first, a] a.ty
+    else .compSet [first, a] [] a.ty
+  | .nonSetComp chain ty =>
+    if !first.isSet then .nonSetComp (first :: chain) ty
     else .compSet [first] chain ty
-  | .compSet iter _ ty => .compSet (first :: iter) [] ty       -- getChain() keeps the iterable part only
+  | .compSet iter _ ty => .compSet (first :: iter) [] ty
 
 /-- `BaseStore.GetSymbol` on the dot-separated parts of a name -/
 def resolve (defs : List StoreDef) : Nat → List String → Option RSym
@@ -129,6 +144,30 @@ def resolve (defs : List StoreDef) : Nat → List String → Option RSym
              (match first with
               | .id => none
               | _ => (resolve defs st' (q :: rest)).map (compose first))
+           | none => none)
+        | none => none
+
+/-- `GetSymbol` with the pre-0441eb9 composition (documentation only) -/
+def resolvePre0441eb9 (defs : List StoreDef) : Nat → List String → Option RSym
+  | _, [] => none
+  | st, [p] => (lookupSym defs st p).map .atom
+  | st, p :: q :: rest =>
+    match defs[st]? with
+    | none => none
+    | some d =>
+      match d.maps.lookup p with
+      | some ty =>
+        -- entityMapSymbol.createElementSymbol: key = last part (middle parts name nested buckets,
+        -- which the model does not cover: only `map.key` is resolved)
+        if rest.isEmpty then some (.atom (.mapElem st p q ty)) else none
+      | none =>
+        match lookupSym defs st p with
+        | some first =>
+          (match first.linked with
+           | some st' =>
+             (match first with
+              | .id => none
+              | _ => (resolvePre0441eb9 defs st' (q :: rest)).map (composePre0441eb9 first))
            | none => none)
         | none => none
 
